@@ -37,15 +37,20 @@ impl<C: Config, Q: Query> Snapshot<C, Q> {
         }
 
         // check if the query was called with repairing firewall and
-        // has pending backward projection to do
+        // has pending backward projection to do.
+        //
+        // The marker is honoured whatever timestamp it was written in: it
+        // stays until a backward projection has run to completion
+        // (`done_backward_projection`), and the one that wrote it may have
+        // been cancelled, never started (the query was recomputed for a
+        // `User` or `Query` caller) or lost in a crash, in an earlier
+        // timestamp. This must agree with the double check in
+        // `get_backward_projection_lock_guard`.
         if matches!(
             caller.kind(),
             CallerKind::RepairFirewall
                 | CallerKind::BackwardProjectionPropagation
-        ) && self
-            .pending_backward_projection()
-            .await
-            .is_some_and(|x| x.0 == caller.timestamp())
+        ) && self.pending_backward_projection().await.is_some()
         {
             return FastPathResult::ToSlowPath(SlowPath::BaackwardProjection);
         }
